@@ -207,7 +207,26 @@ def impl(c):
         from msdparser import parse_msd
         ps = list(parse_msd(string=str(o)))
         ser_fields = [x.strip() for x in ps[0].components[1:7]]
-    return {"results": rs, "items": items, "eq_fresh": same, "ser_fresh": ser_same, "ser_fields": ser_fields, "ser_items": ser_items}
+    bare_ok = True
+    if c["kind"] == "smchart":
+        # a chart built empty and filled field by field in another order (by key or by attribute): each value is read back under its own
+        # field, and the serialisation lists them in the documented order
+        import random as _r
+        rr = _r.Random(len(str(c)) * 31 + len(items))
+        order = list(SIX); rr.shuffle(order)
+        bare = classes()["smchart"]()
+        vals = {k: "%s-%d" % (k.lower(), i) for i, k in enumerate(SIX)}
+        for k in order:
+            if rr.random() < 0.5:
+                bare[k] = vals[k]
+            else:
+                setattr(bare, k.lower(), vals[k])
+        from msdparser import parse_msd
+        got = [x.strip() for x in list(parse_msd(string=str(bare)))[0].components[1:7]]
+        bare_ok = got == [vals[k] for k in SIX] and all(bare[k] == vals[k] and getattr(bare, k.lower()) == vals[k] for k in SIX)
+        if not bare_ok:
+            bare_ok = ["assigned in order %s" % order, "serialised fields %s" % got]
+    return {"results": rs, "items": items, "eq_fresh": same, "ser_fresh": ser_same, "ser_fields": ser_fields, "ser_items": ser_items, "bare_ok": bare_ok}
 
 
 def enc_op(kind, op):
@@ -264,7 +283,7 @@ def model(c, ans):
     items = [[S(k), dval(v)] for k, v in mf]
     six = [dict((k, v) for k, v in items).get(k) for k in SIX] if c["kind"] == "smchart" else None
     return {"results": out, "items": items, "eq_fresh": True, "ser_fresh": True,
-            "ser_fields": [x.strip() for x in six] if six else None, "ser_items": expected_ser_items(c["kind"], items)}
+            "ser_fields": [x.strip() for x in six] if six else None, "ser_items": expected_ser_items(c["kind"], items), "bare_ok": True}
 
 
 def expected_ser_items(kind, items):
@@ -335,6 +354,8 @@ def oracle(c, o):
     want = expected_ser_items(kind, [[k, v] for k, v in d.items()])
     if o.get("ser_items") != want:
         return "the serialisation lists %s, the mapping holds %s" % (o.get("ser_items"), want)
+    if o.get("bare_ok") is not True:
+        return "an SM chart built empty and filled in another field order: %s" % (o.get("bare_ok"),)
     if kind == "smchart" and o["ser_fields"] != [(d[k] or "").strip() for k in SIX]:
         return "serialised chart fields %s are not the six fields in documented order" % (o["ser_fields"],)
     return None
